@@ -13,7 +13,10 @@ RULE = ("paragraphs = ordered (name, value) lists, values = first line x all con
         "transitions = (document, form, comment placement, armor, class) configurations, traces = parser executions; "
         "non-trivial = documents with a continuation line or more than one field/paragraph; sweep = one-field "
         "paragraphs that carry one swept character in the value (first line and continuation line) or in the field name, "
-        "run through the same single-paragraph configurations (plain + comments at all boundaries, armor)")
+        "run through the same single-paragraph configurations (plain + comments at all boundaries, armor); long lines = "
+        "one- and two-field paragraphs and two-paragraph documents in which the first line and/or a continuation line of "
+        "one value is a physical line of exactly L characters (ASCII) / L bytes or L characters of 2-byte UTF-8 letters, "
+        "L around the buffer sizes a reader may use, through the same configurations")
 BUDGET = {"quick": 240, "thorough": 3000}
 
 
@@ -28,7 +31,19 @@ def bounds(tier):
             "sweep": "one character at a time: %d values 'x<c>y' + continuation line ' x<c>y' under field A (c = printable "
                      "ASCII U+0021..U+007E and %d non-ASCII letters) and %d field names 'X<c>Y' with value 'v' (c = "
                      "printable ASCII except ':'); forms x {plain, comments at all boundaries} and the armor variants"
-                     % (len(sweep_value_chars()), len(SWEEP_NON_ASCII), len(sweep_name_chars()))}
+                     % (len(sweep_value_chars()), len(SWEEP_NON_ASCII), len(sweep_name_chars())),
+            "long_lines": {"physical_line_lengths": long_lengths(tier), "fills": [f for f, _m in LONG_FILLS],
+                           "value_layouts": ([l for l, _m in LONG_LAYOUTS] if tier != "quick" else
+                                             "shapes x %r for fills ascii and utf8-bytes at lengths < 16384 (utf8-chars: 2 "
+                                             "fields with F resp. f+C); reduced products at the larger lengths - see "
+                                             "long_specs()" % (LONG_LAYOUTS_QUICK,)),
+                           "paragraph_shapes": LONG_SHAPES,
+                           "documents": "two paragraphs, the long value (layouts F, f+C) in the first or in the second, "
+                                        "separator 1 blank line: %d" % sum(len(long_docs(L, tier)) for L in long_lengths(tier)),
+                           "single_paragraphs": sum(len(long_specs(L, tier)) for L in long_lengths(tier)),
+                           "configurations": "6 forms x {plain, comments at all boundaries} x {Deb822, iter_paragraphs} "
+                                             "+ armor (%s) x 6 forms x {Deb822, Dsc, Changes}"
+                                             % ("1 Hash header" if tier == "quick" else "0/1/2 Hash headers")}}
 
 
 def assumptions():
@@ -38,7 +53,12 @@ def assumptions():
             "sweep: the swept value characters are printable, non-blank characters only - control characters, white "
             "space and the characters str.splitlines cuts at (\\x0b \\x0c \\x1c-\\x1e \\x85 U+2028 U+2029) are not "
             "'printable/UTF-8 values' in the sense of the quantifier; swept field-name characters are the policy set "
-            "U+0021..U+007E without ':' (the swept character is never first, so '#' and '-' are legal)"]
+            "U+0021..U+007E without ':' (the swept character is never first, so '#' and '-' are legal)",
+            "long lines: the statement puts no bound on the length of a line; lengths are those of the physical line "
+            "'Name: first line' resp. ' continuation' without its newline (8190..8193 bracket a cut after 8192 units "
+            "whether or not the newline is counted); 'bytes' fills make the UTF-8 encoded line exactly L bytes long "
+            "(fewer characters), 'chars' fills make it L characters long (more bytes); one filler letter repeated, "
+            "no blanks inside the long line"]
 
 
 NAMES = ["A", "Long-Name", "x1", "a9"]
@@ -71,6 +91,109 @@ def sweep_pars():
     out = [[("A", "x%sy\n x%sy" % (c, c))] for c in sweep_value_chars()]
     out += [[("X%sY" % c, "v")] for c in sweep_name_chars()]
     return out
+
+
+LONG_LENGTHS = [8190, 8191, 8192, 8193, 16384, 65536, 65537]
+LONG_LENGTHS_THOROUGH = [4095, 4096, 4097, 16383, 16385, 32767, 32768, 32769, 65535, 131072, 131073]
+# fill -> how a physical line of length L (characters, or bytes once encoded) with the given ASCII prefix is filled
+LONG_FILLS = [("ascii", "L characters = L bytes of one ASCII letter"),
+              ("utf8-bytes", "2-byte letters (one ASCII letter of padding if needed): exactly L bytes, fewer characters"),
+              ("utf8-chars", "2-byte letters: exactly L characters, more bytes")]
+# layout of the value that carries the long line(s): F = long first line, C = long continuation line, lower case = short
+LONG_LAYOUTS = [("F", "long first line only"), ("F+c", "long first line, short continuation line"),
+                ("f+C", "short first line, long continuation line"), ("f+C+c", "short first, long continuation, short continuation"),
+                ("F+C", "long first line and long continuation line"), ("+C", "empty first line, long continuation line"),
+                ("F+C+c", "long first line, long continuation line, short continuation line")]
+LONG_LAYOUTS_QUICK = ["F", "f+C", "F+C+c"]
+LONG_SHAPES = ["1 field", "2 fields, long value first", "2 fields, long value second"]
+
+
+def long_fill(prefix, L, fill, seed):
+    """text that completes `prefix` (ASCII) to a physical line of length L in the unit of `fill`"""
+    a = core.rep(seed, ["x", "q", "1", "Z"])
+    n = L - len(prefix)
+    if fill == "ascii":
+        return a * n
+    u = core.rep(seed, ["é", "ß", "ø", "ж"])
+    if fill == "utf8-chars":
+        return u * n
+    return a * (n % 2) + u * (n // 2)
+
+
+def long_value(name, L, fill, layout, seed):
+    c = core.rep(seed, ["c", "r", "2", "Y"])
+    v = core.rep(seed, ["v", "q", "1", "Z"])
+    first, _, rest = layout.partition("+")
+    lines = [{"F": long_fill(name + ": ", L, fill, seed), "f": v, "": ""}[first]]
+    for r in rest.split("+") if rest else []:
+        lines.append(" " + (long_fill(" ", L, fill, seed) if r == "C" else c))
+    return "\n".join(lines)
+
+
+def long_par(spec, seed):
+    L, fill, layout, shape = spec["L"], spec["fill"], spec["layout"], spec["shape"]
+    other = core.rep(seed, ["y", "w", "3", "X"])
+    if shape == 0:
+        return [("A", long_value("A", L, fill, layout, seed))]
+    if shape == 1:
+        return [("Long-Name", long_value("Long-Name", L, fill, layout, seed)), ("x1", other)]
+    return [("x1", other + "\n d"), ("a9", long_value("a9", L, fill, layout, seed))]
+
+
+def long_lengths(tier):
+    return LONG_LENGTHS if tier == "quick" else sorted(LONG_LENGTHS + LONG_LENGTHS_THOROUGH)
+
+
+def long_specs(L, tier):
+    """single-paragraph specs for one length, simplest first.  quick: the full fill x shape product over three layouts
+    at the lengths around 8192, a reduced product at the larger lengths (a case costs time proportional to L);
+    thorough: fills x shapes x all layouts at every length"""
+    if tier != "quick":
+        fills, layouts = [f for f, _m in LONG_FILLS], [l for l, _m in LONG_LAYOUTS]
+        return [{"L": L, "fill": f, "layout": l, "shape": sh} for f in fills for sh in range(len(LONG_SHAPES)) for l in layouts]
+    full = [(sh, l) for sh in range(len(LONG_SHAPES)) for l in LONG_LAYOUTS_QUICK]
+    if L < 16384:
+        plan = [("ascii", full), ("utf8-bytes", full), ("utf8-chars", [(1, "F"), (2, "f+C")])]
+    elif L < 65536:
+        plan = [("ascii", [(sh, l) for sh in range(len(LONG_SHAPES)) for l in ("F", "f+C")]),
+                ("utf8-bytes", [(1, "F"), (2, "f+C"), (0, "F+C+c")])]
+    else:
+        plan = [("ascii", [(1, "F"), (2, "f+C"), (0, "F+C+c")]), ("utf8-bytes", [(1, "F")])]
+    return [{"L": L, "fill": f, "layout": l, "shape": sh} for f, cells in plan for sh, l in cells]
+
+
+def long_docs(L, tier):
+    """two-paragraph documents for one length: (spec of the long paragraph, position of the long paragraph)"""
+    if tier != "quick":
+        plan = [(f, (0, 1), ("F", "f+C")) for f, _m in LONG_FILLS]
+    elif L < 16384:
+        plan = [("ascii", (0, 1), ("F", "f+C")), ("utf8-bytes", (0,), ("F", "f+C")), ("utf8-chars", (0,), ("F",))]
+    else:
+        plan = [("ascii", (0,), ("F", "f+C")), ("utf8-bytes", (0,), ("F",))]
+    return [({"L": L, "fill": f, "layout": l, "shape": sh}, pos)
+            for f, shapes, layouts in plan for sh in shapes for l in layouts for pos in (0, 1)]
+
+
+def squeeze(x):
+    """readable rendering of results that contain very long runs of one character"""
+    import re
+    t = x if isinstance(x, str) else repr(x)
+    return re.sub(r"(.)\1{39,}", lambda m: "<%r x %d>" % (m.group(1), len(m.group(0))), t, flags=re.S)
+
+
+def run_long(case):
+    """executes one long-line case -> (violations, n executions)"""
+    if case["kind"] == "long":
+        bad, n = check_single(long_par(case["spec"], case["seed"]), False, ARMOR_HEADERS[:1] if case.get("one_armor") else None)
+    else:
+        bad, n = check_multi(long_doc_pars(case["spec"], case["pos"], case["seed"]), "\n")
+    return [(sig, squeeze(exp), squeeze(obs)) for sig, exp, obs in bad], n
+
+
+def long_doc_pars(spec, pos, seed):
+    short = [("A", core.rep(seed, ["s", "t", "4", "W"])), ("Long-Name", "k\n l")]
+    lp = long_par(spec, seed)
+    return [lp, short] if pos == 0 else [short, lp]
 
 
 def values(tier, seed, fi):
@@ -129,7 +252,7 @@ def build(par):
     return d.dump()
 
 
-def check_single(par, full):
+def check_single(par, full, armors=None):
     """-> (violations, n executions)"""
     from debian.deb822 import Deb822, Dsc, Changes
     bad = []
@@ -156,7 +279,7 @@ def check_single(par, full):
                 bad.append(("deb822/single/%s/%s" % (vclass, fn), want, "%r from %r" % (got, t)))
             elif gp != [want]:
                 bad.append(("deb822/single-iter/%s/%s" % (vclass, fn), [want], "%r from %r" % (gp, t)))
-    for hn, hdrs in ARMOR_HEADERS:
+    for hn, hdrs in (ARMOR_HEADERS if armors is None else armors):
         a = armor(text, hdrs)
         for fn, mk in forms(a):
             for cls in (Deb822, Dsc, Changes):
@@ -244,12 +367,15 @@ def units(tier, seed):
     out += [{"kind": "single2", "lo": i, "hi": min(n2, i + step)} for i in range(0, n2, step)]
     ns = len(sweep_pars())
     out += [{"kind": "sweep", "lo": i, "hi": min(ns, i + SWEEP_CHUNK)} for i in range(0, ns, SWEEP_CHUNK)]
+    out += [{"kind": "long", "L": L} for L in long_lengths(tier)]
     out += [{"kind": "multi2", "a": i} for i in range(20)]
     out += [{"kind": "multi3", "a": i} for i in range(6)]
     return out
 
 
 def unit_cost(u, tier):
+    if u["kind"] == "long":
+        return 4 + u["L"] // 4096
     return {"single1": 30, "single2": 10, "sweep": 1, "multi2": 2, "multi3": 3}[u["kind"]]
 
 
@@ -286,6 +412,24 @@ def run_unit(u, tier, seed):
         for par in pars:
             do_single(par, False)
         part.sample({"kind": "single", "par": pars[0], "full": False})
+    elif u["kind"] == "long":
+        one = tier == "quick"
+        cases = [{"kind": "long", "spec": spec, "seed": seed, "one_armor": one} for spec in long_specs(u["L"], tier)]
+        cases += [{"kind": "longdoc", "spec": spec, "pos": pos, "seed": seed} for spec, pos in long_docs(u["L"], tier)]
+        for case in cases:
+            bad, n = run_long(case)
+            spec = case["spec"]
+            part.states += 1
+            part.transitions += n
+            part.traces += n
+            part.evaluations += n
+            part.nontrivial += 1
+            for sig, exp, obs in bad:
+                part.violation(sig, case, exp, obs, rank=(100000 if case["kind"] == "long" else 200000) + spec["L"])
+            if not bad:
+                part.outcomes["long/%s/%s/%s" % (spec["fill"], spec["layout"], "document" if case["kind"] == "longdoc"
+                                                 else "%d-fields" % (1 if spec["shape"] == 0 else 2))] += 1
+        part.sample({"kind": "long", "spec": long_specs(u["L"], tier)[0], "seed": seed, "one_armor": one})
     else:
         pl = pool(seed)
         rest = [pl] if u["kind"] == "multi2" else [pl[:6], pl[:6]]
@@ -309,6 +453,8 @@ def run_unit(u, tier, seed):
 
 
 def replay(case):
+    if case["kind"] in ("long", "longdoc"):
+        return run_long(case)[0]
     if case["kind"] == "single":
         return check_single([tuple(x) for x in case["par"]], case["full"])[0]
     return check_multi([[tuple(x) for x in p] for p in case["pars"]], case["sep"])[0]
